@@ -48,6 +48,16 @@ def check(ck):
         rets = FuncView(gv).returns()
         ck.ob("GraphQLEnumType.get_value is a strict map lookup (a miss raises KeyError)",
               len(rets) == 1 and unparse(rets[0].value) == f"self._value_map[{gv.positional_params[1]}]", gv, gv.node, construct="enum:get_value")
+        et = repo.cls("tartiflette/types/enum.py", "GraphQLEnumType")
+        ia = et.self_attrs()
+        ck.ob("each enum type owns its value map: bound to a fresh dict in __init__, not a class-level dict shared by every enum",
+              unparse(ia.get("_value_map")) in ("{}", "dict()") and "_value_map" not in et.class_attrs, where="tartiflette/types/enum.py", construct="enum:own-value-map",
+              detail="a class-level map would accept for one enum the values declared by another (and by __TypeKind / __DirectiveLocation)")
+        bev = repo.func("tartiflette/types/enum.py", "GraphQLEnumType.bake_enum_values")
+        st = [n for n in walk_no_nested(bev.node) if isinstance(n, ast.Assign) and isinstance(n.targets[0], ast.Subscript) and unparse(n.targets[0].value) == "self._value_map"]
+        lp = FuncView(bev).enclosing(st[0], (ast.For,)) if st else None
+        ck.ob("the value map is filled with exactly the enum's declared values, keyed by name", len(st) == 1 and lp is not None and unparse(lp.iter) == "self.values" and
+              unparse(st[0].targets[0].slice).endswith(".name"), bev, st[0] if st else bev.node, construct="enum:value-map-filled")
         hs = [h for h in fv.handlers()]
         miss = [h for h in hs if "KeyError" in (unparse(h.type) if h.type else "")]
         ok = False
@@ -65,16 +75,7 @@ def check(ck):
         ck.ob("outputs.enum_coercer returns only the coerced member", len(rets) == 1 and unparse(rets[0].value) == outname, f, rets[0] if rets else f.node,
               construct="enum:return")
     with ck.rule("R4"):
-        for name in ("list_coercer_sequentially", "list_coercer_concurrently"):
-            f = repo.func(OUT + "list_coercer.py", name)
-            fv = FuncView(f)
-            p = f.positional_params
-            rs = [r for r in fv.raises() if r.exc is not None and unparse(r.exc).startswith("TypeError(")]
-            ok = len(rs) == 1 and fv.guarded(rs[0], lambda t: t == f"isinstance({p[0]}, list)", "F")
-            ck.ob(f"{name}: a non-list result raises", ok, f, rs[0] if rs else f.node, construct=f"{name}:non-list-raises")
-            users = [c for c in fv.calls(["enumerate"])]
-            ok2 = bool(users) and all(fv.guarded(c, lambda t: t == f"isinstance({p[0]}, list)", "T") for c in users)
-            ck.ob(f"{name}: iteration happens only for a list", ok2, f, users[0] if users else f.node, construct=f"{name}:iterate-guarded")
+        list_guard(ck, repo)
     with ck.rule("R5"):
         f = repo.func(OUT + "abstract_coercer.py", "ensure_valid_runtime_type")
         fv = FuncView(f)
@@ -103,6 +104,20 @@ def check(ck):
                   construct=f"possible:{cls}")
     with ck.rule("R6"):
         _never_raises(ck, repo)
+
+
+def list_guard(ck, repo):
+    """Both list coercers reject anything that is not a `list` before iterating (shared with C02.R5)."""
+    for name in ("list_coercer_sequentially", "list_coercer_concurrently"):
+        f = repo.func(OUT + "list_coercer.py", name)
+        fv = FuncView(f)
+        p = f.positional_params
+        rs = [r for r in fv.raises() if r.exc is not None and unparse(r.exc).startswith("TypeError(")]
+        ok = len(rs) == 1 and fv.guarded(rs[0], lambda t: t == f"isinstance({p[0]}, list)", "F")
+        ck.ob(f"{name}: a non-list result raises (str, dict, set, bytes are iterable but are not lists)", ok, f, rs[0] if rs else f.node, construct=f"{name}:non-list-raises")
+        users = [c for c in fv.calls(["enumerate"])]
+        ok2 = bool(users) and all(fv.guarded(c, lambda t: t == f"isinstance({p[0]}, list)", "T") for c in users)
+        ck.ob(f"{name}: iteration happens only for a list", ok2, f, users[0] if users else f.node, construct=f"{name}:iterate-guarded")
 
 
 def _never_raises(ck, repo):
